@@ -297,7 +297,13 @@ def run(ctx):
         ctx.anchor_fail('SHUTDOWN', 'token cancel / two handle takes / return in stop()')
     else:
         par = {}
-        reach = st2.reachable_tracking([0], {c.bb for c in canc2}, parents=par)
+        # a path on which the token is already found cancelled (an idempotent second stop()) counts as cancelled
+        already = set()
+        for n_, e_ in st2.edge_nodes().items():
+            cd_ = F.edge_cond(st2, e_)
+            if cd_.kind == 'bool' and cd_.truth and cd_.expr.mentions_call(r'CancellationToken::is_cancelled$') is not None:
+                already.add(n_)
+        reach = st2.reachable_tracking([0], {c.bb for c in canc2} | already, parents=par)
         esc = [r for r in rets2 if r in reach]
         via = None
         if esc:
